@@ -226,9 +226,10 @@ class VObj(V):
 class VFunc(V):
     """A callable inside the interpreter: stub, lambda, nested def or contract-bound function."""
 
-    def __init__(self, name, call):
+    def __init__(self, name, call, self_value=None):
         self.name = name
         self.call = call
+        self.self_value = self_value
 
     kind = ('opaque', 'Func')
 
